@@ -8,3 +8,10 @@ import NdonnxVerif.Props.C03
 import NdonnxVerif.Driver.Dtype
 import NdonnxVerif.Model.GenSupport
 import NdonnxVerif.Props.C17
+import NdonnxVerif.Model.Heap
+import NdonnxVerif.Lemmas.Heap
+import NdonnxVerif.Lemmas.HeapSim
+import NdonnxVerif.Props.C07
+import NdonnxVerif.Props.C01
+import NdonnxVerif.Props.C16
+import NdonnxVerif.Driver.Heap
